@@ -819,7 +819,7 @@ def opt_oracle(c, o, bad, ci, hist):
                     out.append({'case': ci, 'clause': 'contract-xstar-evaluated', 'frontend': fe, 'step_index': si,
                                 'violates_property': False, 'replay': {'mode': 'opt', 'case': c}})
             # not worse than the start
-            if not (fun <= f0 * (1 + 1e-12) + 1e-300):
+            if not (fun <= f0 * (1 + 1e-12) + 1e-300 or near_merit(fun, f0, 1e-9)):   # least_squares nudges an x0 lying on a bound strictly inside (1e-10)
                 W('not-worse', si, start=f0, returned_fun=fun, explained=('unscaled-bounds-scaled' if d07 else None))
             # bounded variables within bounds (lens units, read independently of the Variable classes)
             for i, v in enumerate(vars_):
